@@ -68,8 +68,10 @@ func (t *tr) storedObjs(stmts []ast.Stmt) map[types.Object]bool {
 					mark(ie)
 				}
 			case *ast.CallExpr:
-				if i := t.destArg(x); i >= 0 && i < len(x.Args) {
-					mark(x.Args[i])
+				for _, i := range t.destArgs(x) {
+					if i >= 0 && i < len(x.Args) {
+						mark(x.Args[i])
+					}
 				}
 				if t.f != nil && t.f.externRead[t.src(x.Fun)] && len(x.Args) > 0 {
 					mark(x.Args[len(x.Args)-1])
@@ -111,6 +113,61 @@ func (t *tr) destArg(c *ast.CallExpr) int {
 		return idx
 	}
 	return -1
+}
+
+// closureLit: the function literal a local procedure name is bound to (`f := func(…) {…}` somewhere in the current definition)
+func (t *tr) closureLit(c *ast.CallExpr) *ast.FuncLit {
+	id, ok := c.Fun.(*ast.Ident)
+	if !ok || t.f == nil {
+		return nil
+	}
+	return t.f.closureLits[t.objOf(id)]
+}
+
+// scanClosures records the local procedures of a statement list (by object), for the static write analyses
+func (t *tr) scanClosures(stmts []ast.Stmt) {
+	for _, s := range stmts {
+		ast.Inspect(s, func(n ast.Node) bool {
+			if as, ok := n.(*ast.AssignStmt); ok && as.Tok == token.DEFINE && len(as.Lhs) == 1 && len(as.Rhs) == 1 {
+				if fl, ok := as.Rhs[0].(*ast.FuncLit); ok {
+					if id, ok := as.Lhs[0].(*ast.Ident); ok {
+						t.f.closureLits[t.u.info.Defs[id]] = fl
+					}
+				}
+			}
+			return true
+		})
+	}
+}
+
+// destArgs: all arguments a call writes into (procedures with several written parameters included)
+func (t *tr) destArgs(c *ast.CallExpr) []int {
+	if i := t.destArg(c); i >= 0 {
+		return []int{i}
+	}
+	if fl := t.closureLit(c); fl != nil {
+		// a local procedure writes the arguments bound to the slice parameters its body stores into
+		stored := t.storedObjs(fl.Body.List)
+		var r []int
+		i := 0
+		for _, fld := range fl.Type.Params.List {
+			for _, nm := range fld.Names {
+				if stored[t.u.info.Defs[nm]] {
+					r = append(r, i)
+				}
+				i++
+			}
+		}
+		return r
+	}
+	if sg := t.calleeSig(c); sg != nil && sg.proc {
+		var r []int
+		for _, oi := range sg.outIdx {
+			r = append(r, oi-sg.nRecv)
+		}
+		return r
+	}
+	return nil
 }
 
 // findViews decides statically which `x := y[lo:hi]` variables are views and what their roots are.
